@@ -4,6 +4,7 @@ package transd
 
 import (
 	"context"
+	"crypto/tls"
 	"fmt"
 	"net"
 	"strconv"
@@ -13,6 +14,7 @@ import (
 	"time"
 
 	lime "github.com/takenet/lime-go"
+	"verif/harness/hs"
 )
 
 type Ev struct {
@@ -23,8 +25,10 @@ type Ev struct {
 	V    int    `json:"v"`
 }
 type Cfg struct {
-	Kind string `json:"kind"`
-	K    int    `json:"k"`
+	Kind   string `json:"kind"`
+	K      int    `json:"k"`
+	URL    string `json:"url,omitempty"`    // kind "wsattr": ws | wss
+	TLSCfg string `json:"tlscfg,omitempty"` // kind "wsattr": "y" = the dialer is given a TLS configuration
 }
 type Case struct {
 	N   int  `json:"n"`
@@ -137,6 +141,9 @@ func classify(err error) string {
 
 // Replay performs the operations of the case's predicted history and records what really happens.
 func (w *Worker) Replay(c Case) Result {
+	if c.Cfg.Kind == "wsattr" {
+		return replayAttr(c)
+	}
 	res := Result{N: c.N, Cfg: c.Cfg}
 	a, b, err := w.pair(c.Cfg)
 	if err != nil {
@@ -201,5 +208,58 @@ func (w *Worker) Replay(c Case) Result {
 			time.Sleep(settle)
 		}
 	}
+	return res
+}
+
+// replayAttr: what each end of a websocket connection reports as its encryption, for ws:// and wss://
+// URLs, with and without a TLS configuration handed to the dialer (C09: both ends apply the same).
+func replayAttr(c Case) Result {
+	res := Result{N: c.N, Cfg: c.Cfg}
+	bg := context.Background()
+	wc := &lime.WebsocketConfig{}
+	if c.Cfg.URL == "wss" {
+		wc.TLSConfig = hs.ServerTLS
+	}
+	var lis lime.TransportListener
+	var addr *net.TCPAddr
+	var err error
+	for try := 0; try < 50; try++ {
+		addr = nextAddr()
+		lis = lime.NewWebsocketTransportListener(wc)
+		if err = lis.Listen(bg, addr); err == nil {
+			break
+		}
+	}
+	if err != nil {
+		res.Note = "setup: " + err.Error()
+		return res
+	}
+	defer lis.Close()
+	var tc *tls.Config
+	if c.Cfg.TLSCfg == "y" {
+		tc = hs.ClientTLS
+	}
+	ctx, cancel := context.WithTimeout(bg, 3*time.Second)
+	defer cancel()
+	var ct lime.Transport
+	for i := 0; i < 50; i++ {
+		if ct, err = lime.DialWebsocket(ctx, c.Cfg.URL+"://"+addr.String()+"/", nil, tc); err == nil {
+			break
+		}
+		time.Sleep(5 * time.Millisecond)
+	}
+	if err != nil {
+		res.Note = "setup: dial: " + err.Error()
+		return res
+	}
+	defer ct.Close()
+	st, err := lis.Accept(ctx)
+	if err != nil {
+		res.Note = "setup: accept: " + err.Error()
+		return res
+	}
+	defer st.Close()
+	res.Actual = []Ev{{K: "op", Op: "attr", Side: c.Cfg.URL, Res: "cli:" + string(ct.Encryption()) + ",srv:" + string(st.Encryption())}}
+	res.Matched = len(c.Obs) == 1 && c.Obs[0].Res == res.Actual[0].Res
 	return res
 }
